@@ -154,6 +154,13 @@ fn assemble_with_command(
 		fileserver,
 		&command.input_filenames);
 
+	// An error found after the output was built
+	// (e.g. an unused define) must not deliver any output
+	if assembly.error
+	{
+		return Err(());
+	}
+
 	let output = assembly.output
 		.as_ref()
 		.ok_or(())?;
